@@ -26,6 +26,7 @@ enum HC {
   H_ADD_T, H_SUB_T, H_MUL_T, H_DIV_T,
   H_ASSIGN_T, H_ASSIGN_E, H_SELF_ADD, H_SELF_RSUB, H_SELF_MULADD, H_SELF_SCALE,
   H_ADD_M, H_SUB_M, H_MUL_M, H_DIV_M,
+  H_ADD_SELFMAP, H_SUB_SELFMAP, H_MUL_SELFMAP, H_ASSIGN_SELFMAP,
   H_PROD, H_PROD_PLUS_SELF, H_ADD_PROD,
   H_SL_ASSIGN_S, H_SL_MUL_S, H_SL_ASSIGN_V, H_SL_SUB_V,
   H_FSL_ASSIGN_S, H_FSL_ADD_V, H_LASTINT_S,
@@ -39,6 +40,7 @@ static const char *hc_name[] = {
   "m += R", "m -= R", "m *= R", "m /= R",
   "m = R", "m = R + R2", "m = m + R", "m = R - m", "m = (m + R) * R2", "m = c * m",
   "m += mr (map rhs)", "m -= mr (map rhs)", "m *= mr (map rhs)", "m /= mr (map rhs)",
+  "m += m2 (second map over the SAME buffer)", "m -= m2 (same buffer)", "m *= m2 (same buffer)", "m = m2 (same buffer)",
   "m = matmul(RA,RB)", "m = matmul(RA,RB) + m", "m += matmul(RA,RB)",
   "m(seq...) = c", "m(seq...) *= c", "m(seq...) = R(seq...)", "m(seq...) -= R(seq...)",
   "m(fseq<0,-1,2>,fall...) = c", "m(fseq<0,-1,2>,fall...) += R(same)", "m(all...,j) = c",
@@ -88,6 +90,11 @@ void hist_thunk(const HArgs<T> &a) {
     case H_SUB_M: m -= mr; A -= R; break;
     case H_MUL_M: m *= mr; A *= R; break;
     case H_DIV_M: m /= mr; A /= R; break;
+    // the right-hand side is another map onto the destination's own storage: same effect as the owning tensor combined with itself
+    case H_ADD_SELFMAP: { Map m2(a.mapbuf); m += m2; Ten B(A); A += B; break; }
+    case H_SUB_SELFMAP: { Map m2(a.mapbuf); m -= m2; Ten B(A); A -= B; break; }
+    case H_MUL_SELFMAP: { Map m2(a.mapbuf); m *= m2; Ten B(A); A *= B; break; }
+    case H_ASSIGN_SELFMAP: { Map m2(a.mapbuf); m = m2; break; }
     case H_PROD: case H_PROD_PLUS_SELF: case H_ADD_PROD:
       if constexpr (rank <= 2) {
         constexpr size_t d0 = dims[0], d1 = rank == 2 ? dims[rank - 1] : 0;
@@ -220,6 +227,8 @@ void hist_driver(vf::Draw &d, vf::Ctx &ctx, const HDesc &D, void (*thunk)(const 
     long double Bn = B; int sn = s;
     switch (cmd) {
       case H_MUL_S: case H_MUL_T: case H_MUL_M: case H_SELF_SCALE: case H_SL_MUL_S: Bn = 9 * B; break;
+      case H_MUL_SELFMAP: Bn = B * B; sn = 2 * s; break;
+      case H_ADD_SELFMAP: Bn = 2 * B; break;
       case H_SELF_MULADD: Bn = 9 * (B + 9); break;
       case H_DIV_S: sn = s + 3; break;
       case H_DIV_T: case H_DIV_M: sn = s + 2; break;
